@@ -59,6 +59,7 @@ type Cfg struct {
 	Listener  bool
 	Values    int // number of distinct value indices (default 1)
 	MaxBatch  int // max batch creation count (default 2)
+	Prefer    func(f *wx.Failure) bool // which failure to report when several oracles fire on the same state
 }
 
 // Name implements wx.Scenario.
